@@ -294,7 +294,7 @@ PROPS = {
         "assumptions": [],
     },
     "C15": {
-        "required_theorems": ["c15_replace_consistent", "c15_preserve_sends_same", "c15_marker_top_only", "c15_blank_key_restored", "c15_edge_points_kept", "c15_import_stored", "c15_children_order",
+        "required_theorems": ["c15_replace_consistent", "c15_preserve_sends_same", "c15_marker_top_only", "c15_blank_key_restored", "c15_edge_points_kept", "c15_import_stored", "c15_children_order", "c15_reexport",
                               "c15_exports_live_only", "gen_export_pinned", "gen_export_constants_pinned"],
         "n": {"quick": 500, "thorough": 4000},
         "thorough_seeds": 3,
@@ -310,7 +310,10 @@ PROPS = {
         "modelled": ["client/node.go ExportNodes/exportNodesHelper, ImportNodes, checkIDs, ReplaceIDs, SendNode modelled by hand on the store model (Siot/Model/Export.lean); a tree is a pre-order list with depths; shape re-extracted every run (gen_export_pinned)",
                      "import under 'root' (replacing the root node) is not modelled and not generated", "time stamps (not exported) and origins are outside the comparison"],
         "assumptions": ["c15_import_stored: the nodes are in the form exportNodesHelper writes (stored rows, key '0' blanked), unknown to the target store, no mirror inside the tree, parent not 'root'/'none'"],
-        "partial": "proved: the tree transformations (id replacement, check, marker, noise reduction, liveness of exported nodes) and, on the store model, that sending the prepared nodes of a tree without mirrors "
+        "partial": "proved: the tree transformations (id replacement, check, marker, noise reduction, liveness of exported nodes); on the store model, for trees without mirrors: sending the prepared nodes leaves exactly one new edge per node "
+                   "in file order and the record read back for every imported node is the node of the file, deletion mark included (c15_import_stored, c15_children_order); exporting any imported node again returns the pre-order list the file's own "
+                   "parent pointers describe (c15_reexport) — which is the file itself whenever the file is the traversal of its own tree, a decidable property the driver evaluates on every exported file (SelfRebuilding) instead of a theorem about exportFrom. "
+                   "Trees that contain a mirror are covered by the correspondence run only. The YAML text is not modelled.",
                    "leaves exactly one new edge per node in file order and that the record exportNodesHelper reads back for every imported node is the node of the file, deletion mark included (c15_import_stored, c15_children_order). "
                    "Not stated as one theorem: that the recursive traversal of those records and child lists re-assembles the same pre-order list, and trees that contain a mirror; both are covered by the correspondence run. The YAML text is not modelled.",
     },
